@@ -103,7 +103,7 @@ def run(chk):
     for a, o, m in zip(lines, impl, mod):
         if nontrivial(a, m):
             chk.nontrivial.add(hashlib.sha1(a.encode()).digest()[:8])
-        if o != m and o not in ('hang', 'crash'):
+        if o != m and o not in ('hang', 'crash', 'skipped'):
             bad.append((a, o, m))
     chk.samples.append(dict(stream='hostile', input=lines[0][:500], impl=impl[0][:300], model=mod[0][:300]))
     me_gen = me.GEN
@@ -113,7 +113,7 @@ def run(chk):
     ic = impl_run(chk.harness, cfg_lines, timeout=20.0)
     judge(cfg_lines, ic, 'generated mapping files x hostile histories')
     mc = model_run('C14', cfg_lines)
-    bad = [(a, o, m) for a, o, m in zip(cfg_lines, ic, mc) if o != m and o not in ('hang', 'crash')]
+    bad = [(a, o, m) for a, o, m in zip(cfg_lines, ic, mc) if o != m and o not in ('hang', 'crash', 'skipped')]
     resolve_scope_b(chk, me, bad, 'hostile-cfg', {}, None, None)
     im = impl_run(chk.harness, map_lines, timeout=20.0)
     judge(map_lines, im, 'mapping.yaml x hostile histories')
